@@ -91,7 +91,7 @@ PROPS.update({
         "technique": "property-based no-panic search (rapid) over hostile OTLP values x options x histories, plus generated giant batches around the 16-bit id width with an error-expected oracle",
         "level_text": "Generated-input search with a recover wrapper around every producer call: a recovered panic is the failure. Inputs lift every domain restriction (invalid UTF-8, timestamps >= 2^63, nesting beyond 16, zero-first list/struct columns), interleave signals and options, and giants with 65,535..131,073 parents must be refused with an error (and accepted at <= 65,535) with later small batches unaffected.",
         "design_ref": "DESIGN.md §7 C08",
-        "rule": "two generators: (a) option x history cases of 1-5 hostile batches, NON-TRIVIAL = a batch introduced a new column or follows a refused batch; (b) giants = one of EVERY family (22: parents, containers, shared scopes, children tables) per case, n in {65535,65536,65537,70000,131073}, 0-2 small batches before/after, all non-trivial; DISTINCT = FNV-64 of the option/shape vector resp. the giant parameters",
+        "rule": "two generators: (a) option x history cases of 1-5 hostile batches, NON-TRIVIAL = a batch introduced a new column or follows a refused batch; (b) giants = one of EVERY family (26: parents, containers, shared scopes, children tables, parents of the 32-bit children tables) per case, n in {65535,65536,65537,70000,131073}, 0-2 small batches before/after, all non-trivial; DISTINCT = FNV-64 of the option/shape vector resp. the giant parameters",
         "assumptions": OPTION_ASSUME + ["a panic anywhere below Producer.BatchArrowRecordsFrom*/Close is caught by recover in the harness adapter", "for exactly 65,536 parents either outcome (batch or error) is accepted"],
         "jobs": {
             "quick": [{"test": "TestC08", "shards": 8, "checks": 6400, "timeout": 900}, {"test": "TestC08Giants", "shards": 6, "checks": 6, "timeout": 900}],
@@ -107,7 +107,7 @@ PROPS.update({
         "assumptions": OPTION_ASSUME + ["the independent reader is arrow-go's ipc.Reader (one per schema id) - the Arrow library itself is trusted", "batches the producer refuses emit nothing and consume no batch id"],
         "jobs": {
             "quick": [{"test": "TestC12", "shards": 8, "checks": 4800, "timeout": 900}],
-            "thorough": [{"test": "TestC12", "shards": 16, "checks": 48000, "timeout": 3000}],
+            "thorough": [{"test": "TestC12", "shards": 16, "checks": 48000, "timeout": 3000}, {"test": "FuzzRapid", "shards": 1, "checks": 0, "rapid": False, "fuzztime": "150s", "parallel": 6, "timeout": 1500}],
         },
     },
     "C13": {
@@ -119,7 +119,7 @@ PROPS.update({
         "assumptions": OPTION_ASSUME + ["arbitrarily long streams are approximated by histories of up to 40 batches whose id universe keeps growing"],
         "jobs": {
             "quick": [{"test": "TestC13", "shards": 8, "checks": 640, "timeout": 900}],
-            "thorough": [{"test": "TestC13", "shards": 16, "checks": 12000, "timeout": 3000}],
+            "thorough": [{"test": "TestC13", "shards": 16, "checks": 12000, "timeout": 3000}, {"test": "FuzzRapid", "shards": 1, "checks": 0, "rapid": False, "fuzztime": "150s", "parallel": 6, "timeout": 1500}],
         },
     },
     "C15": {
@@ -166,7 +166,7 @@ PROPS.update({
         ],
         "jobs": {
             "quick": [{"test": "TestC14", "shards": 12, "checks": 720, "timeout": 900}],
-            "thorough": [{"test": "TestC14", "shards": 16, "checks": 12000, "timeout": 3300}],
+            "thorough": [{"test": "TestC14", "shards": 16, "checks": 12000, "timeout": 3300}, {"test": "FuzzRapid", "shards": 1, "checks": 0, "rapid": False, "fuzztime": "150s", "parallel": 6, "timeout": 1500}],
         },
     },
     "C16": {
@@ -207,7 +207,7 @@ PROPS.update({
         "assumptions": BP_ASSUME + ["metric.Metadata() is not part of the identity C05 enumerates and is not compared"],
         "jobs": {
             "quick": [{"test": "TestC05", "shards": 10, "checks": 100000, "timeout": 600}, {"test": "TestC05", "shards": 3, "checks": 18000, "timeout": 600, "cpus": 2, "env": {"VERIF_FULL_CHANNEL": "1"}}],
-            "thorough": [{"test": "TestC05", "shards": 16, "checks": 1600000, "timeout": 3000}, {"test": "TestC05", "shards": 2, "checks": 60000, "timeout": 3000, "race": True}, {"test": "TestC05", "shards": 4, "checks": 200000, "timeout": 3000, "cpus": 2, "env": {"VERIF_FULL_CHANNEL": "1"}}],
+            "thorough": [{"test": "TestC05", "shards": 16, "checks": 1600000, "timeout": 3000}, {"test": "FuzzScenario", "shards": 1, "checks": 0, "rapid": False, "fuzztime": "120s", "parallel": 6, "timeout": 1500}, {"test": "TestC05", "shards": 2, "checks": 60000, "timeout": 3000, "race": True}, {"test": "TestC05", "shards": 4, "checks": 200000, "timeout": 3000, "cpus": 2, "env": {"VERIF_FULL_CHANNEL": "1"}}],
         },
     },
     "C06": {
@@ -219,7 +219,7 @@ PROPS.update({
         "assumptions": BP_ASSUME + ["'wrapping the export failure' is read as: wraps at least one failed carrying export, and no non-carrying one"],
         "jobs": {
             "quick": [{"test": "TestC06", "shards": 10, "checks": 100000, "timeout": 600}, {"test": "TestC06", "shards": 3, "checks": 18000, "timeout": 600, "cpus": 2, "env": {"VERIF_FULL_CHANNEL": "1"}}],
-            "thorough": [{"test": "TestC06", "shards": 16, "checks": 1600000, "timeout": 3000}, {"test": "TestC06", "shards": 4, "checks": 200000, "timeout": 3000, "cpus": 2, "env": {"VERIF_FULL_CHANNEL": "1"}}],
+            "thorough": [{"test": "TestC06", "shards": 16, "checks": 1600000, "timeout": 3000}, {"test": "FuzzScenario", "shards": 1, "checks": 0, "rapid": False, "fuzztime": "120s", "parallel": 6, "timeout": 1500}, {"test": "TestC06", "shards": 4, "checks": 200000, "timeout": 3000, "cpus": 2, "env": {"VERIF_FULL_CHANNEL": "1"}}],
         },
     },
     "C09": {
@@ -231,7 +231,7 @@ PROPS.update({
         "assumptions": BP_ASSUME + ["deadline clauses are judged only with max_concurrency=0, auto-completing exports and no metadata keys"],
         "jobs": {
             "quick": [{"test": "TestC09", "shards": 10, "checks": 100000, "timeout": 600}],
-            "thorough": [{"test": "TestC09", "shards": 16, "checks": 1600000, "timeout": 3000}],
+            "thorough": [{"test": "TestC09", "shards": 16, "checks": 1600000, "timeout": 3000}, {"test": "FuzzScenario", "shards": 1, "checks": 0, "rapid": False, "fuzztime": "120s", "parallel": 6, "timeout": 1500}],
         },
     },
     "C10": {
@@ -243,7 +243,7 @@ PROPS.update({
         "assumptions": BP_ASSUME + ["absent and empty-list metadata are the same combination (client.Metadata.Get returns nil for both); [\"\"] is distinct"],
         "jobs": {
             "quick": [{"test": "TestC10", "shards": 10, "checks": 100000, "timeout": 600}, {"test": "TestStressC10", "shards": 4, "checks": 160, "timeout": 600, "race": True}],
-            "thorough": [{"test": "TestC10", "shards": 14, "checks": 1400000, "timeout": 3000}, {"test": "TestStressC10", "shards": 4, "checks": 6000, "timeout": 3000, "race": True}],
+            "thorough": [{"test": "TestC10", "shards": 14, "checks": 1400000, "timeout": 3000}, {"test": "FuzzScenario", "shards": 1, "checks": 0, "rapid": False, "fuzztime": "120s", "parallel": 6, "timeout": 1500}, {"test": "TestStressC10", "shards": 4, "checks": 6000, "timeout": 3000, "race": True}],
         },
     },
     "C11": {
@@ -255,7 +255,7 @@ PROPS.update({
         "assumptions": BP_ASSUME + ["no claim of exhaustiveness over interleavings; deadlock = still blocked in the virtual instant after everything was released"],
         "jobs": {
             "quick": [{"test": "TestC11", "shards": 8, "checks": 80000, "timeout": 600}, {"test": "TestC11", "shards": 3, "checks": 9000, "timeout": 600, "race": True}, {"test": "TestStressC11", "shards": 4, "checks": 80, "timeout": 600, "race": True}, {"test": "TestC11", "shards": 3, "checks": 18000, "timeout": 600, "cpus": 2, "env": {"VERIF_FULL_CHANNEL": "1"}}],
-            "thorough": [{"test": "TestC11", "shards": 10, "checks": 1000000, "timeout": 3000}, {"test": "TestC11", "shards": 4, "checks": 100000, "timeout": 3000, "race": True}, {"test": "TestStressC11", "shards": 4, "checks": 3000, "timeout": 3000, "race": True}, {"test": "TestC11", "shards": 4, "checks": 200000, "timeout": 3000, "cpus": 2, "env": {"VERIF_FULL_CHANNEL": "1"}}],
+            "thorough": [{"test": "TestC11", "shards": 10, "checks": 1000000, "timeout": 3000}, {"test": "FuzzScenario", "shards": 1, "checks": 0, "rapid": False, "fuzztime": "120s", "parallel": 6, "timeout": 1500}, {"test": "TestC11", "shards": 4, "checks": 100000, "timeout": 3000, "race": True}, {"test": "TestStressC11", "shards": 4, "checks": 3000, "timeout": 3000, "race": True}, {"test": "TestC11", "shards": 4, "checks": 200000, "timeout": 3000, "cpus": 2, "env": {"VERIF_FULL_CHANNEL": "1"}}],
         },
     },
     "C18": {
@@ -267,7 +267,7 @@ PROPS.update({
         "assumptions": BP_ASSUME + ["spans come from go.opentelemetry.io/otel/sdk with an in-memory SpanRecorder passed through processor.Settings"],
         "jobs": {
             "quick": [{"test": "TestC18", "shards": 10, "checks": 100000, "timeout": 600}],
-            "thorough": [{"test": "TestC18", "shards": 16, "checks": 1600000, "timeout": 3000}],
+            "thorough": [{"test": "TestC18", "shards": 16, "checks": 1600000, "timeout": 3000}, {"test": "FuzzScenario", "shards": 1, "checks": 0, "rapid": False, "fuzztime": "120s", "parallel": 6, "timeout": 1500}],
         },
     },
 })
